@@ -290,6 +290,84 @@ def sidefx_tu(rng):
     return src, owners
 
 
+def selfcheck_tu(rng):
+    """Reference-free probes (the expected value is known by construction):
+    - packed structs with bit-fields of every base type: each field is written and read back (value modulo width, sign), its neighbours keep theirs
+      - whatever the layout (the layout of packed bit-fields is an open C08 finding, the accesses must be consistent with it);
+    - objects with static storage duration and an _Alignas stricter than 16 (scalars, arrays of 16 bytes or more, structs; file scope, static local, tentative);
+    - parameters passed on the stack (long double and structs containing one after an odd / even number of eightbytes): values and addresses seen by the callee."""
+    lines = ['#include "vrt.h"']
+    body = []
+    exp = []
+    owners = []
+    k = 0
+    bases = [('signed char', 8, True), ('unsigned char', 8, False), ('short', 16, True), ('unsigned short', 16, False), ('int', 32, True), ('unsigned', 32, False), ('long', 64, True), ('unsigned long', 64, False)]
+    for t in range(40):
+        nf = rng.randrange(2, 7)
+        fields = []
+        for f in range(nf):
+            (bt, w, sg) = rng.choice(bases)
+            fields.append((bt, rng.randrange(1, w + 1), sg))
+        packed = rng.random() < 0.8
+        lines.append('struct %s PB%d { %s char tail; };' % ('__attribute__((packed))' if packed else '', t, ' '.join('%s f%d : %d;' % (bt, i, w) for i, (bt, w, sg) in enumerate(fields))))
+        vals = []
+        for i, (bt, w, sg) in enumerate(fields):
+            raw = rng.choice([(1 << w) - 1, 1 << (w - 1), (1 << (w - 1)) - 1, rng.getrandbits(w), 1, 0x5555555555555555 & ((1 << w) - 1)])
+            vals.append(raw - (1 << w) if (sg and raw >> (w - 1)) else raw)
+        stmts = ['struct PB%d x; memset(&x, %s, sizeof x);' % (t, rng.choice(['0', '0xff', '0x5a']))]
+        order = list(range(nf))
+        rng.shuffle(order)
+        for i in order:
+            stmts.append('x.f%d = %s;' % (i, '%dUL' % vals[i] if vals[i] >= (1 << 63) else '(-9223372036854775807L-1)' if vals[i] == -(1 << 63) else '%dL' % vals[i]))
+        stmts.append('x.tail = 77;')
+        for i in range(nf):
+            stmts.append('OUTV(%d, x.f%d);' % (k, i))
+            exp.append('%d=%d' % (k, vals[i] if vals[i] < (1 << 63) else vals[i] - (1 << 64)))
+            owners.append(('C04|selfcheck|%sbit-field-readback|%s:%d' % ('packed-' if packed else '', fields[i][0].replace(' ', '-'), fields[i][1]), 'struct PB%d field f%d' % (t, i)))
+        stmts.append('OUTV(%d, x.tail);' % k)
+        exp.append('%d=77' % k)
+        owners.append(('C04|selfcheck|bit-field-neighbour', 'struct PB%d tail' % t))
+        body.append('{ %s }' % ' '.join(stmts))
+        k += 1
+    lines.append('void *memset(void *, int, unsigned long);')
+    # over-aligned static objects
+    aligned = []
+    for j, (decl, al) in enumerate([('_Alignas(64) char oa%d[64]', 64), ('_Alignas(32) int oa%d[8]', 32), ('static _Alignas(128) char oa%d[20]', 128), ('_Alignas(64) char oa%d[200] = {1}', 64),
+                                    ('static _Alignas(32) long oa%d[5] = {1, 2}', 32), ('_Alignas(64) int oa%d', 64), ('static _Alignas(256) struct { char c[40]; } oa%d', 256), ('_Alignas(32) char oa%d[16]', 32),
+                                    ('_Alignas(4096) char oa%d[17]', 4096), ('_Alignas(32) double oa%d[2] = {1.5}', 32)]):
+        lines.append(decl % j + ';')
+        body.append('OUTV(%d, (unsigned long)&oa%d %% %d);' % (k, j, al))
+        exp.append('%d=0' % k)
+        owners.append(('C04|selfcheck|static-object-alignment|%s' % decl.split(' oa')[0].replace(' ', '-'), decl % j))
+        k += 1
+    body.append('{ static _Alignas(64) char sl[33]; static _Alignas(32) short sl2[16] = {3}; OUTV(%d, (unsigned long)sl %% 64 + (unsigned long)sl2 %% 32); }' % k)
+    exp.append('%d=0' % k)
+    owners.append(('C04|selfcheck|static-object-alignment|static-local', 'static locals'))
+    k += 1
+    # stack-passed parameters
+    lines.append('struct LDS { long double v; int t; };')
+    for j, nlong in enumerate([6, 7, 8, 9, 10]):
+        ps = ', '.join('long a%d' % i for i in range(nlong))
+        lines.append('static long sp%d(%s, long double x, char c, long double y, struct LDS s, long double z) { OUTV(%d, (long)x * 1000 + c * 100 + (long)y * 10 + s.t + (long)s.v + (long)z * 7 + a%d); '
+                     'OUTV(%d, (unsigned long)&x %% 16 + (unsigned long)&y %% 16 + (unsigned long)&s %% 16 + (unsigned long)&z %% 16); return 0; }' % (j, ps, k, nlong - 1, k))
+        body.append('{ struct LDS s = {4.0L, 5}; sp%d(%s, 2.0L, 3, 6.0L, s, 8.0L); }' % (j, ', '.join(str(i + 1) for i in range(nlong))))
+        exp += ['%d=%d' % (k, 2000 + 300 + 60 + 5 + 4 + 56 + nlong), '%d=0' % k]
+        owners += [('C04|selfcheck|stack-parameter|value|%d-gp-args' % nlong, 'sp%d' % j), ('C04|selfcheck|stack-parameter|alignment|%d-gp-args' % nlong, 'sp%d' % j)]
+        k += 1
+    src = '\n'.join(lines) + '\nint main(void) {\n' + '\n'.join(body) + '\nreturn 0; }\n'
+    return src, exp, owners
+
+
+def run_selfcheck(a):
+    (idx, cc, work, src) = a
+    p = os.path.join(work, 'sc%d.c' % idx)
+    open(p, 'w').write(src)
+    r = core.build_and_run('chibicc', cc, p, work, 'sc%d' % idx, timeout=60, probes=True, run_env={'VERIF_PROBE_REPORT': '1'})
+    g = core.build_and_run('gcc', cc, p, work, 'sc%dg' % idx, timeout=60)
+    os.unlink(p)
+    return idx, r, g
+
+
 def run_tu(a):
     (idx, cc, work, src, probes) = a
     p = os.path.join(work, 'tu%d.c' % idx)
@@ -395,6 +473,30 @@ def run(ctx):
                 continue
             if lx[ln] != lg[ln]:
                 ctx.violation(key, '%s: dumped leaf/guard line %d: chibicc %s, gcc = clang %s' % (desc, ln, lx[ln], lg[ln]), files=files, script=script)
+    # reference-free self-checks
+    scs = [selfcheck_tu(rng) for _ in range(ctx.scale(6, 60))]
+    for idx, r, g in core.pmap(run_selfcheck, [(i, cc, work, t[0]) for i, t in enumerate(scs)]):
+        src, exp, owners = scs[idx]
+        files = {'tu.c': src, 'expected.txt': '\n'.join(exp) + '\n'}
+        script = 'CHIBICC_VERIF_PROBES=1 $CHIBICC -I$VERIF/rt -c -o tu.o tu.c && gcc -o tu.exe tu.o $RT && ./tu.exe | grep -v PROBES > got.txt; cmp -s got.txt expected.txt && exit 0; diff got.txt expected.txt | head -4; exit 1'
+        # the expectations are constructed, but a gcc build is run as a sanity check of the construction (non-packed units only differ in layout, not in these values)
+        gl = [l for l in g['out'].decode('utf-8', 'replace').split('\n')[:-1] if not l.startswith('PROBES')] if g['stage'] == 'run' else None
+        if gl is not None and gl != exp:
+            raise core.Inconclusive('self-check expectation disagrees with the gcc build (harness bug): ' + str(core.first_diff('\n'.join(gl).encode(), '\n'.join(exp).encode())))
+        if r['stage'] != 'run' or r['rc'] != 0:
+            ctx.violation('C04|selfcheck|tu-%s-fail' % r['stage'], 'chibicc failed on the self-check unit: ' + core.first_line(r['err'].decode('utf-8', 'replace')) + r['out'].decode('utf-8', 'replace')[-120:], files=files, script=script)
+            continue
+        lx = [l for l in r['out'].decode('utf-8', 'replace').split('\n')[:-1] if not l.startswith('PROBES')]
+        ctx.evaluations += len(exp)
+        ctx.count('observations', len(exp))
+        ctx.count('selfcheck_observations', len(exp))
+        if len(lx) != len(exp):
+            ctx.violation('C04|selfcheck|output-shape', 'printed %d lines, expected %d' % (len(lx), len(exp)), files=files, script=script)
+            continue
+        for ln, (a1, b1) in enumerate(zip(lx, exp)):
+            ctx.saw(owners[ln][0])
+            if a1 != b1:
+                ctx.violation(owners[ln][0], '%s: got %s, expected %s' % (owners[ln][1], a1, b1), files=files, script=script)
     ctx.count('reference_ambiguous', amb)
     ctx.count('statement_probes_executed', probes)
     if amb > 0.02 * max(1, ctx.counts.get('observations', 1)):
